@@ -54,6 +54,7 @@ var atRe = regexp.MustCompile(`^"((?:[^"\\]|\\.)*)"(?:#(\d+))?\s+(assert|assume)
 // PointSpec is an assertion attached to the first statement whose source line
 // contains Pattern (the pattern must occur on exactly one line of the function).
 type PointSpec struct {
+	Missing    string // non-empty: the anchor statement was not found
 	Pattern    string
 	Text       string
 	Line       int
@@ -985,7 +986,11 @@ func (c *VerifCtx) pointSpecs(ct *Contract) []*PointSpec {
 			}
 		}
 		if (ps.Occurrence == 0 && hit != 1) || (ps.Occurrence > 0 && hit < ps.Occurrence) {
-			panic(fmt.Errorf("%s:%d: the pattern %q occurs on %d lines of %s (the code it was anchored to changed)", ps.File, ps.Line, ps.Pattern, hit, ct.Header))
+			// the statement the assertion was anchored to is gone (or ambiguous):
+			// the assertion cannot be checked - reported as a failed obligation
+			ps.Missing = fmt.Sprintf("the pattern %q occurs on %d lines of %s (the code it was anchored to changed)", ps.Pattern, hit, ct.Header)
+			ps.SrcLine = -1
+			continue
 		}
 		ps.SrcFile = start.Filename
 		tf := c.fset.File(ct.Decl.Pos())
